@@ -67,4 +67,40 @@ theorem pwr_pre {v : Ver} {c : Nat} (hs : step s t (.pwr v c) = some s') : s.pc 
   subst h1
   exact ⟨by assumption, rfl⟩
 
+
+macro "cow_unf " hs:ident : tactic => `(tactic|
+  (unfold step at $hs:ident
+   split at $hs:ident <;> simp [stepIdle, stepRdA, stepRdH, stepRdP, stepRdD, stepDr, stepLkCalled, stepLkA, stepLkH, stepLkC,
+    stepLkD, stepLkT, stepLkTD, stepLkExc, stepWHold, stepRelA, stepRelB, stepRelC, stepRelU, stepCn] at $hs:ident))
+
+theorem pcp_pre {new src : Ver} {k : Nat} (hs : step s t (.pcp new src k) = some s') :
+    s.pc t = .lkH (some src) ∧ new ∉ s.alloc ∧ s'.pc t = .lkC new := by
+  cow_unf hs
+  obtain ⟨⟨h1, h2, _⟩, rfl⟩ := hs
+  subst h1
+  exact ⟨by assumption, h2, by simp⟩
+
+theorem prd_pre {v : Ver} {c : Nat} (hs : step s t (.prd v c) = some s') :
+    ((t, v) ∈ s.snaps ∨ s.pc t = .wHold v) ∧ s' = s := by
+  cow_unf hs
+  · obtain ⟨⟨h1, _⟩, rfl⟩ := hs; exact ⟨.inl h1, rfl⟩
+  · obtain ⟨⟨h1, _⟩, rfl⟩ := hs
+    rcases h1 with h1 | h1
+    · subst h1; exact ⟨.inr (by assumption), rfl⟩
+    · exact ⟨.inl h1, rfl⟩
+
+theorem stPtr_pre {x : Side} {v : Ver} (hs : step s t (.stPtr x v) = some s') :
+    (s.pc t = .relA v ∨ ∃ f, s.pc t = .relB v f) ∧ s'.pc t = s.pc t ∧ s'.det = some x := by
+  cow_unf hs
+  · obtain ⟨h1, l, _, rfl⟩ := hs; subst h1
+    rename_i hpc; exact ⟨.inl hpc, by simp [hpc], rfl⟩
+  · obtain ⟨h1, l, _, rfl⟩ := hs; subst h1
+    rename_i hpc; exact ⟨.inr ⟨_, hpc⟩, by simp [hpc], rfl⟩
+
+theorem ldPtr_pre {x : Side} {v : Ver} (hs : step s t (.ldPtr x v) = some s') :
+    v = s.sv x ∧ ((∃ k, s'.pc t = .rdH k (some v)) ∨ s'.pc t = .lkH (some v)) := by
+  cow_unf hs
+  · obtain ⟨⟨_, h1⟩, l, _, rfl⟩ := hs; exact ⟨h1, .inl ⟨_, by simp; rfl⟩⟩
+  · obtain ⟨⟨_, h1⟩, l, _, rfl⟩ := hs; exact ⟨h1, .inr (by simp)⟩
+
 end ConcVerif.Cow
